@@ -5,13 +5,17 @@
 //
 // op text (space separated words):
 //
-//	cap <fmt> <links> C <ipA> <portA> <ipB> <portB> <isnA> <isnB> <dataA> <dataB> [C ...] P <pkt>*  [@note]*
-//	<links> = link type, or `l1+l2` (pcapng only: one interface per entry, packet i on interface i mod n)
+//	cap <fmt> <links> C <ipA> <portA> <ipB> <portB> <isnA> <isnB> <dataA> <dataB> [C ...] P (<pkt> | N | N=<links>)*  [@note]*
+//	<fmt>   = pcap_{le,be}[_ns] | pcapng_{le,be}[_len[_big]]  (_len: section_length given instead of -1,
+//	          _big: the section header block carries a 400 byte comment option)
+//	<links> = link type, or `l1+l2` (pcapng only: one interface per entry, packet i of a section on interface i mod n)
+//	<ip>    = dotted IPv4, or IPv6 as eight colon separated hex groups (not compressed)
 //	<data>  = `-` | hex | g<seed>:<len> (bytes of a 64 bit LCG, see genBytes)
 //	<pkt>   = T:<conn>:<a|b>:<seqoff>:<len>:<flags>   a whole TCP segment sent by endpoint A or B of <conn>;
 //	              seqoff is relative to that endpoint's ISN (SYN = 0, first data byte = 1), payload =
 //	              data[seqoff-1 : seqoff-1+len], flags ⊆ "SAFP" or `-`
 //	          F:<conn>:<a|b>:<ipid>:<fragoff>:<mf>:<hex>   an IPv4 fragment (IP payload bytes literal)
+//	N / N=<links>   (pcapng) a new section starts here, with the interfaces of the first section / with these
 package main
 
 import (
